@@ -45,6 +45,8 @@ Invariants (all C03):
 
 from __future__ import annotations
 
+import dataclasses
+
 import hashlib
 from dataclasses import dataclass, replace
 from typing import Any
@@ -308,7 +310,7 @@ def _perturb(w: W) -> None:
     elif kind == "backend-flip" and st.bindings_installed():
         st.set_backend(not st.backend())
         ctx.fault("backend-flip", f"serving={st.backend()}")
-    else:
+    elif not getattr(w, "pin_uniform", False):
         w.rng.mode = "uniform" if w.rng.mode == "edge" else "edge"
         ctx.fault("rng-mode", w.rng.mode)
 
@@ -354,7 +356,23 @@ def run(ctx: Ctx) -> None:
         arrivals = ch.shuffled(arrivals, "relay.order")
         ctx.fault("reorder")
     victim = -1
-    if faults and ec.cofactor == 1 and ch.chance(2, 3, "relay.corrupt?"):
+    swapped = False
+    if faults and ec.cofactor == 1 and ctx.cfg.get("pair") and len(arrivals) >= 3:
+        # two wrong members whose errors cancel in a plain sum: the s values of two members swapped. With
+        # independent uniform coefficients the batch equation still fails except with probability 1/n, so
+        # this class is drawn under UNIFORM coefficient draws only (an edge draw may legally repeat a value,
+        # and then the unchanged library accepts such a batch too): the mode is pinned for the whole run
+        w.rng.mode = "uniform"
+        w.pin_uniform = True
+        i = ch.draw(len(arrivals), "pair.i")
+        j = ch.draw(len(arrivals), "pair.j")
+        a, b = arrivals[i], arrivals[j]
+        if i != j and a.s != b.s and (a.msg, a.x, a.r) != (b.msg, b.x, b.r):
+            arrivals[i] = dataclasses.replace(a, s=b.s, note="swapped-s")
+            arrivals[j] = dataclasses.replace(b, s=a.s, note="swapped-s")
+            swapped = True
+            ctx.fault("swap-s-pair", i, j)
+    elif faults and ec.cofactor == 1 and ch.chance(2, 3, "relay.corrupt?"):
         victim = ch.draw(len(arrivals), "relay.victim")
         arrivals[victim] = _corrupt(w, arrivals[victim], signers)
     # -- verifier ------------------------------------------------------------------
@@ -392,6 +410,7 @@ def _plans(tier: str) -> list[Any]:
         Plan("schnorr", {"faults": True, "curve": "secp256k1"}, share=4.0, chunk=20, label="schnorr/secp256k1-one-bad-member"),
         Plan("schnorr", {"faults": False}, share=1.0, chunk=20, label="schnorr/any-curve-fault-free"),
         Plan("schnorr", {"faults": True}, share=2.0, chunk=20, label="schnorr/any-curve-one-bad-member"),
+        Plan("schnorr", {"faults": True, "curve": "secp256k1", "pair": True, "rng": "uniform"}, share=1.5, chunk=20, label="schnorr/secp256k1-cancelling-pair"),
     ]
 
 
